@@ -54,6 +54,9 @@ type program struct {
 	// unlockPoints: a scheduling point after every Unlock / RUnlock (release points): what a thread does
 	// after leaving a critical section may interleave with the threads that enter it next
 	unlockPoints bool
+	// reopen: after the final reads the database is closed, a new process opens it and reads again: the
+	// committed state the clients left must be the state the next process finds (differential oracle)
+	reopen bool
 }
 
 func parseSteps(s string) []step {
@@ -98,6 +101,8 @@ func parse(p string) *program {
 				pr.writerAnnounce = true
 			case kv == "up=1":
 				pr.unlockPoints = true
+			case kv == "reopen=1":
+				pr.reopen = true
 			}
 		}
 		p = p[:i]
@@ -373,6 +378,33 @@ func (pr *program) body() (string, string) {
 	vrt.Quiesce()
 	if n := vrt.NumLive(); n != 0 {
 		return fmt.Sprintf("leaked-threads: %d threads alive after Close: %s", n, vrt.LiveThreads()), ""
+	}
+	if pr.reopen {
+		before := append([]lin.Op(nil), r.rec.ops[len(r.rec.ops)-len(pr.keys)-1:]...)
+		dbh.NewProcess()
+		in2, err := dbh.Open(spec)
+		if err != nil {
+			return "restart-open-failed: " + dbh.ShortErr(err), ""
+		}
+		r.in = in2
+		n0 := len(r.rec.ops)
+		for i, k := range pr.keys {
+			r.exec(fin+1, i, step{kind: 'G', key: k})
+		}
+		r.exec(fin+1, len(pr.keys), step{kind: 'K'})
+		after := append([]lin.Op(nil), r.rec.ops[n0:]...)
+		r.rec.ops = r.rec.ops[:n0] // the linearizability search below is about the first life
+		cerr := in2.Close()
+		vrt.Quiesce()
+		for i := range before {
+			b, a := before[i], after[i]
+			if b.ObsErr != a.ObsErr || b.ObsVal != a.ObsVal || strings.Join(b.ObsKeys, "\x00") != strings.Join(a.ObsKeys, "\x00") {
+				return fmt.Sprintf("restart-changes-state: before Close %s, after Close + Open by a new process %s", b.String(), a.String()), ""
+			}
+		}
+		if cerr != nil {
+			return "close-error: second life: " + cerr.Error(), ""
+		}
 	}
 	ops := append([]lin.Op(nil), r.rec.ops...)
 	out := outcomeKey(ops)
